@@ -98,6 +98,12 @@ impl<const BITS: usize, const LIMBS: usize> Uint<BITS, LIMBS> {
             Some(digit)
         });
         let value = Self::from_base_be(radix, digits)?;
+        #[cfg(feature = "recmo_uint_verif")]
+        {
+            if err.is_some() {
+                crate::verif_hooks::hit(98);
+            }
+        }
         err.map_or(Ok(value), Err)
     }
 }
